@@ -69,6 +69,37 @@ impl HandlerErased for OwnQueryEcho {
             .build())
     }
 }
+/// PlainEcho declared as an off-reader handler (servers that run everything inline ignore that).
+struct PlainEchoOff;
+impl HandlerErased for PlainEchoOff {
+    fn handle(&self, req: &Message) -> Result<Message, RepeError> {
+        Ok(Message::builder().id(req.header.id).body_bytes(req.body.clone()).body_format_code(req.header.body_format).build())
+    }
+    fn execution(&self) -> repe::server::Execution {
+        repe::server::Execution::OffReader
+    }
+}
+/// Echoes like PlainEcho; if the transport attaches a peer to the call context, a background
+/// thread pushes notifications to it for a while (servers without peers: nothing happens).
+struct PushyEcho;
+impl HandlerErased for PushyEcho {
+    fn handle(&self, req: &Message) -> Result<Message, RepeError> {
+        Ok(Message::builder().id(req.header.id).body_bytes(req.body.clone()).body_format_code(req.header.body_format).build())
+    }
+    fn handle_with_ctx(&self, req: &Message, ctx: &CallContext) -> Result<Message, RepeError> {
+        if let Some(p) = ctx.peer() {
+            let p = p.clone();
+            simkernel::count("probe.peer_attached_to_a_tcp_call_context");
+            simkernel::thread::spawn(move || {
+                for _ in 0..40 {
+                    let _ = p.send_notify("/tick", repe::peer::NotifyBody::Raw(crate::codec::pattern(0, 700), BodyFormat::RawBinary));
+                    simkernel::thread::sleep(std::time::Duration::from_micros(300));
+                }
+            });
+        }
+        self.handle(req)
+    }
+}
 struct PlainEcho(Arc<Counters>);
 impl HandlerErased for PlainEcho {
     fn handle(&self, req: &Message) -> Result<Message, RepeError> {
@@ -163,6 +194,8 @@ pub fn build_router(c: &Arc<Counters>, n_middleware: u32, mw_first: bool) -> Rou
     r = r.with_erased_handler("/custom/own", Arc::new(OwnQuery(c.clone())));
     r = r.with_erased_handler("/custom/plain", Arc::new(PlainEcho(c.clone())));
     r = r.with_erased_handler("/custom/ownecho", Arc::new(OwnQueryEcho));
+    r = r.with_erased_handler("/custom/plainoff", Arc::new(PlainEchoOff));
+    r = r.with_erased_handler("/custom/pushy", Arc::new(PushyEcho));
     r = r.with_erased_handler("/custom/err", Arc::new(FailingErased(c.clone())));
     let reg = Arc::new(Registry::new());
     reg.register_value("/counter", json!(7)).unwrap();
